@@ -243,11 +243,17 @@ static void deliver_signals(int me)
 	}
 }
 
+static int atomic_depth;
+void sched_atomic_begin(void) { atomic_depth++; }
+void sched_atomic_end(void) { atomic_depth--; }
+
 static void point(int op, void *obj, int target, const char *what)
 {
 	int me = self_id;
 	if (me < 0)
 		return;         /* not a controlled thread (e.g. library constructors before sched_init) */
+	if (atomic_depth && op == OP_RUN)
+		return;         /* inside a harness step declared atomic */
 	T[me].op = op;
 	T[me].obj = obj;
 	T[me].target = target;
